@@ -90,6 +90,12 @@ def decode_params(body: bytes) -> list[tuple[int, bytes]]:
     pos = 0
     while pos <= len(body) - 4:
         param_type, param_length = unpack_from("!HH", body, pos)
+        # The length covers the 4-byte parameter header and must not exceed
+        # the remaining data.
+        if param_length < 4 or pos + param_length > len(body):
+            raise ValueError(
+                f"SCTP parameter has an invalid length of {param_length} bytes"
+            )
         params.append((param_type, body[pos + 4 : pos + param_length]))
         pos += param_length + padl(param_length)
     return params
